@@ -332,7 +332,7 @@ Proof.
     rewrite getPtr_ptr by (auto; unfold Theory_t_Compound; lia). rewrite hfind_alloc, Z.eqb_refl. reflexivity.
 Qed.
 
-(* ---------- symbol terms (after c8d69a9): the same order as compound terms - copy first, then setTerm, undo on refusal ---------- *)
+(* ---------- symbol terms (after 4c76fde): the same order as compound terms - copy first, then setTerm, undo on refusal ---------- *)
 Lemma addTermSym_unfold id b s :
   addTermSym id b s =
   match mk_ptr (next (hp s)) Theory_t_Symbol with
@@ -415,7 +415,7 @@ Qed.
 Lemma adel_adel {V} (m : list (Z * V)) k : adel (adel m k) k = adel m k.
 Proof. apply adel_absent. rewrite aget_adel, Z.eqb_refl. reflexivity. Qed.
 
-(* addElement (after 7625ba8) allocates the new element BEFORE it frees the old one.  Fresh addresses are never live, so
+(* addElement (after fe607fc) allocates the new element BEFORE it frees the old one.  Fresh addresses are never live, so
    this is the same state as freeing first and allocating afterwards (addElement_seq, the order before the repair) *)
 Definition addElement_seq (id : Z) (ts : list Z) (c : Z) (s : st) : Z * st :=
   let prep : R st :=
